@@ -15,6 +15,9 @@ structure Input where
   plugins : List PState
   events : List Event
   customOps : Bool := false       -- `enable_custom_operations` of the configuration
+  /-- `ClientSettings.fragments_module_name`: the module the GENERATOR writes the fragment classes to
+      (`generatorFragmentsModuleName` of Model/PluginManager.lean; the plugins look it up on their own) -/
+  genFragmentsModule : String := "fragments"
   deriving Repr, Inhabited
 
 def PState.isShorter : PState → Bool | .shorter _ => true | _ => false
@@ -116,6 +119,18 @@ def trigShorterUnimportedName (x : Input) : Bool :=
         (leavesOf ann).any (fun n => !ahas n st.importedTypes && !ahas n st.classDict && !bound.contains n)
       | none => false)
 
+/-- C15-F8: ShorterResults reads `fragments_module_name` from `config_dict["tool"]["ariadne-codegen"]` only, the
+    generator also honours the deprecated top-level `[ariadne-codegen]` section: when the two names differ and a
+    shortened method returns a class the plugin believes to live in the fragments module, the client module
+    imports it from a module that does not exist. -/
+def trigShorterFragmentsModule (x : Input) : Bool :=
+  shorterActive x && fragmentsModuleNameOf x.plugins != x.genFragmentsModule &&
+    let st := shorterFacts (fragmentsModuleNameOf x.plugins) x.events
+    (baseMethods x.events).any (fun m =>
+      match singleFieldOf st m with
+      | some (_, ann) => (leavesOf ann).any (fun n => alookup n st.importedTypes == some ("." ++ st.fragmentsModuleName))
+      | none => false)
+
 /-- C15-F5: ClientForwardRefs with `enable_custom_operations`: `execute_custom_operation` ends in
     `return self.get_data(response)`, the plugin looks up `imported_classes["self"]` -> KeyError. -/
 def trigFwdSelfCall (x : Input) : Bool := x.plugins.any PState.isFwd && x.customOps
@@ -162,11 +177,43 @@ def trigFwdEmptyTypeChecking (x : Input) : Bool :=
               | some src => startsWithDot src
               | none => ahas n st.classDict) || level1.contains n))))
 
+/-! ### the modules of the generated package (for "every relative import of the client module finds its module") -/
+
+/-- `"." * level + module` of a package-relative import -/
+def relModule (i : ImportFrom) : Option String :=
+  match i.module with
+  | some m => if i.level != 0 || startsWithDot m then some (dotted i.level m) else none
+  | none => none
+
+/-- relative imports of the result-types modules and of the fragments module (they load in the unplugged package) -/
+def resultModuleImports (events : List Event) : List ImportFrom :=
+  events.flatMap (fun e =>
+    match e.call.hook, e.payload with
+    | "generate_result_types_module", .module m => m.body.filterMap Top.importFrom?
+    | "generate_fragments_module", .module m => m.body.filterMap Top.importFrom?
+    | _, _ => [])
+
+/-- the modules that exist in the generated package, as far as the unplugged generation shows: what the
+    unplugged client module, the result-types modules and the fragments module import from, one module per
+    operation, the fragments module under the GENERATOR's name, and the operations module if one was written -/
+def knownModules (x : Input) (ops : Option (String × OpsFile)) : List String :=
+  (baseClientImports x.events).filterMap relModule ++ (resultModuleImports x.events).filterMap relModule ++
+  (baseMethods x.events).map (fun m => "." ++ m.name) ++ ["." ++ x.genFragmentsModule] ++
+  (match ops with | some (n, _) => ["." ++ n] | none => [])
+
+/-- every package-relative import executed when the client module is imported names an existing module -/
+def importsExistB (x : Input) (m : Module) (ops : Option (String × OpsFile)) : Bool :=
+  (topImports m).all (fun i =>
+    match relModule i with
+    | some q => (knownModules x ops).contains q
+    | none => true)
+
 def triggersOf (x : Input) : List String :=
   (if trigFwdSelfCall x then ["fwdSelfCall"] else []) ++
   (if trigFwdEmptyTypeChecking x then ["fwdEmptyTypeChecking"] else []) ++
   (if trigOpsModuleClash x then ["opsModuleClash"] else []) ++
   (if trigShorterUnimportedName x then ["shorterUnimportedName"] else []) ++
+  (if trigShorterFragmentsModule x then ["shorterFragmentsModule"] else []) ++
   (if trigFwdBeforeShorter x then ["fwdBeforeShorter"] else [])
 
 end Ariadne.Plugins
